@@ -1,5 +1,7 @@
 import Dcg.Model.Key
 import Dcg.Gen.Versions
+import Dcg.Gen.KwSites
+import Dcg.Model.KwFlow
 /-
 Dcg.Model.Version â€” AUTHORED (trusted) table of when the standard library started to provide the
 names and constructs the generator can emit. Source: the "New in version X.Y" notes of the Python
@@ -102,5 +104,33 @@ def possibleImports (key : Nat Ã— Nat) (roles : List (Nat Ã— Cls)) : List (Nat Ã
 
 /-- the oldest supported target -/
 def minMinor : Nat := (versions.map (Â·.2)).foldl min 99
+
+/-! ### The keyword-only flag (sites of `Dcg/Gen/KwSites`, language of `Dcg/Model/KwFlow`) -/
+open Dcg.Model.KwFlow Dcg.Gen.KwSites
+
+/-- first minor version for which a `has_*` predicate holds, by the authored tables -/
+def predSince (p : Nat) : Option Nat := (predicateConstruct.lookup p).bind (fun c => constructSince.lookup c)
+
+/-- `dataclass(kw_only=True)` / `field(kw_only=â€¦)` / `KW_ONLY` exist from this minor version on
+(checked equal to the authored `constructSince` entry in `Props/C19.kw_only_sites_guarded`) -/
+def kwOnlyBound : Nat := 10
+
+/-- a site that cannot switch keyword-only on by itself for a target below `kwOnlyBound`.
+Field-key sites (a schema's own `kw_only` entry forwarded to `field(...)`) are judged separately. -/
+def siteOk (s : Site) : Bool := s.kind == .fieldKey || safe predSince kwOnlyBound s.expr
+
+def filesOf (kind : Nat) : List Nat := (kindFiles.lookup kind).getD []
+
+def isText (s : Site) : Bool := s.kind == .textPy || s.kind == .textTemplate
+
+/-- prediction for one run: is `kw_only` written at class level for this output model type, when every read of the flag
+yields `flag` (the user's option) and what the translator does not understand is false -/
+def writesClassLevel (kind : Nat) (flag : Bool) (target : Nat) : Bool :=
+  (sites.filter (fun s => isText s && (filesOf kind).contains s.file)).any
+    (fun s => eval predSince { flag := flag, target := target, free := fun _ => false } s.expr)
+
+/-- can a schema's own `kw_only` entry reach a field of this output model type -/
+def fieldLevelPossible (kind : Nat) : Bool :=
+  sites.any (fun s => s.kind == .fieldKey && (filesOf kind).contains s.file)
 
 end Dcg.Model.Version
